@@ -349,6 +349,23 @@ def run_one(case):
                     raise S.SchedAbort()
                 log('drain_ret', key=list(key), val=r)
 
+    sleepers = []
+
+    def monitor():
+        # A thread asleep in wait() although its predicate (`paused`) holds
+        # and nobody is inside the critical section that could still notify
+        # it: its wake-up now depends on what *other* threads happen to do
+        # next.  On the documented protocol this state cannot exist (the flag
+        # is only raised under plock, followed by notify_all before the lock
+        # is released; a waiter only goes to sleep when the flag is down).
+        pl = getattr(cm, 'plock', None)
+        if sleepers or not isinstance(pl, S.VCondition):
+            return
+        if pl.waiters and getattr(cm, 'paused', False) and \
+                pl._lock.owner is None:
+            sleepers.append(dict(step=len(sc.order),
+                                 threads=sorted(t.name for t in pl.waiters)))
+    sc.monitor = monitor
     root = sc.spawn(solver_body, 'S', 'solver')
     status = sc.run([root])
     if status == 'harness':
@@ -356,6 +373,7 @@ def run_one(case):
     r = Run()
     r.case, r.sc, r.events, r.status, r.fatal = case, sc, events, status, fatal
     r.cm = cm
+    r.sleepers = sleepers
     r.paused_idents = set(cm.pause)
     r.thread_exc = [(t.name, t.exc, t.exc_tb) for t in sc.threads
                     if t.exc is not None]
@@ -422,6 +440,11 @@ def analyse(run):
             '%s(%s)@%s:%d:%s' % (b['thread'], b['role'], b['function'],
                                  b['lineno'], b['prim']) for b in info),
           blocked=core)
+    for sl in getattr(run, 'sleepers', []):
+        F('lost_wakeup', 'at scheduling point %d thread(s) %s are asleep in '
+          'wait() although the solver has published paused=True and nobody '
+          'holds the pause lock: the notification did not reach them' % (
+              sl['step'], ', '.join(sl['threads'])), what='sleeper')
     for x in run.fatal:
         F('exception', '%s in %s op %s: %s: %s' % (
             x['th'], 'solver' if x['th'] == 'S' else 'interface',
